@@ -294,7 +294,10 @@ def check_conversions(ctx: Ctx):
             gviolate(ctx, "shape:llh2trs-result", f"llh2trs of a {arr.shape} array returned shape {back_raw.shape}", case)
         back = back_raw.reshape(-1, 3)
         # ---- correspondence with the Float model
-        ans = drv.ask([f"c05 f trs2llh {ell} {fline(*p)}" for p in xyz] + [f"c05 f llh2trs {ell} {fline(*g)}" for g in llh.tolist()])
+        # `_trs2llh` with the branch-selection statements regenerated from the source for this shape (theorem source_branch_selection)
+        dim = "1d" if shape == "1d" else "2d"
+        ctx.count(f"conv:selection-program={dim}")
+        ans = drv.ask([f"c05 f trs2llhsel {dim} {ell} {fline(*p)}" for p in xyz] + [f"c05 f llh2trs {ell} {fline(*g)}" for g in llh.tolist()])
         for i in range(m):
             mlat, mlon, mh = floats(ans[i])
             rad = math.sqrt(sum(c * c for c in xyz[i]))
@@ -499,10 +502,29 @@ def measure_accuracy(ctx: Ctx, pending):
         jobs.append({"a": common.rs(frac(E.a)), "finv": None if math.isinf(E.f_inv) else common.rs(frac(E.f_inv)),
                      "xyz": [float(v).hex() for v in xyz], "llh": [float(v).hex() for v in llh]})
     refs = mp_reference(jobs)
-    worst = {"near_resid": 0.0, "far_resid": 0.0, "algo_near": 0.0, "algo_far": 0.0, "exact_near": 0.0, "exact_far": 0.0}
-    for (ell, kind, xyz, llh, case), ref in zip(pending, refs):
+    worst = {"near_resid": 0.0, "far_resid": 0.0, "algo_near": 0.0, "algo_far": 0.0, "exact_near": 0.0, "exact_far": 0.0,
+             "R_near": 0.0, "R_far": 0.0, "R_float_model_minus_mp": 0.0}
+    # the model's tangential offset at Float for the same points (p, |z| as the real code forms them)
+    toff = ctx.driver.ask([f"c05 f toffset {ell} {fline(math.sqrt(xyz[0] * xyz[0] + xyz[1] * xyz[1]), abs(xyz[2]))}" for ell, kind, xyz, llh, case in pending]) if pending else []
+    for k_, ((ell, kind, xyz, llh, case), ref) in enumerate(zip(pending, refs)):
         E = ellipsoid.get(ell)
         ctx.count("mpmath-reference")
+        if ref.get("R") is not None:
+            # (0) the closed form of `roundtrip_error_partial`, evaluated by mpmath on the one-step algorithm in exact arithmetic:
+            #     |R| is the round-trip error of the algorithm; the compiled model's R (Float) agrees up to rounding
+            R_mp, rt_mp = float(ref["R"]), float(ref["onestep_roundtrip"])
+            rad_ = math.sqrt(sum(c * c for c in xyz))
+            near_ = abs(float(ref["exact"][2])) <= 1e5
+            ctx.count("tangential-offset")
+            worst["R_near" if near_ else "R_far"] = max(worst["R_near" if near_ else "R_far"], abs(R_mp))
+            if not abs(abs(R_mp) - rt_mp) <= 1e-18 + 1e-12 * rt_mp:
+                gdisagree(ctx, "closed form R of the round-trip error (theorem roundtrip_error_partial) vs mpmath round trip", case, abs(R_mp), rt_mp)
+            if not abs(R_mp) <= (NEAR if near_ else FAR):
+                gviolate(ctx, f"algorithm-roundtrip:{'near' if near_ else 'far'}", f"{ell}: the one-step algorithm in exact arithmetic has round-trip error |R| = {abs(R_mp):.3e} m at {xyz} (kind {kind})", case)
+            R_f = floats(toff[k_])[0]
+            worst["R_float_model_minus_mp"] = max(worst["R_float_model_minus_mp"], abs(R_f - R_mp) / rad_)
+            if not abs(R_f - R_mp) <= 64 * 2.3e-16 * rad_:
+                gdisagree(ctx, "tangentialOffsetOf (Float model) vs mpmath", case, R_f, R_mp)
         lat_e, lon_e, h_e = (float(v) for v in ref["exact"])
         lat_1, h_1 = (float(v) for v in ref["onestep"])
         resid = float(ref["resid"])
@@ -529,7 +551,9 @@ def measure_accuracy(ctx: Ctx, pending):
     ctx.extra["measured_accuracy_m"] = {k: float(f"{v:.3e}") for k, v in worst.items()}
     ctx.extra["measured_accuracy_note"] = ("max over the sampled points against mpmath (50 digits): *_resid = |exact llh2trs(returned llh) - input|, "
                                            "exact_* = distance to the exact geodetic coordinates, algo_* = distance to the one-step "
-                                           "algorithm evaluated in exact arithmetic; near = |h| <= 100 km, far = up to 50 000 km")
+                                           "algorithm evaluated in exact arithmetic; near = |h| <= 100 km, far = up to 50 000 km; R_* = |tangential offset R| of "
+                                           "the one-step algorithm in exact arithmetic (= its round-trip error, theorem roundtrip_error_partial); "
+                                           "R_float_model_minus_mp = max |R(Float model) - R(mpmath)| / geocentric distance")
 
 
 # --------------------------------------------------------------------------------------------------
@@ -945,6 +969,10 @@ def check_external_sites(ctx: Ctx):
 
     names = list(ellipsoid._ELLIPSOIDS)
     for ell in names:
+        for kind in ("position", "posvel"):
+            for shape in ("1d", "1xk", "nxk"):
+                delta_empty_from_one(ctx, kind, ell, shape)
+    for ell in names:
         E = ellipsoid.get(ell)
         for kind, k in (("position", 3), ("posvel", 6)):
             def mk(n, with_site, e=E):
@@ -979,6 +1007,32 @@ def check_external_sites(ctx: Ctx):
                 gviolate(ctx, f"raises:dataset-extend:mixed:{type(e).__name__}", f"Dataset.extend of fields on {ell} and {other} raised {type(e).__name__}: {e}", case)
 
 
+def delta_empty_from_one(ctx, kind, ell, shape):
+    """`PositionDelta.empty_from(d)` / `PosVelDelta.empty_from(d)`: a NaN difference of the same class, shape and system whose
+    (NaN) reference position is on the ellipsoid of `d.ref_pos`"""
+    Position, PositionDelta, PosVel, PosVelDelta, PositionArray, PosVelArray, ellipsoid, T = _imp()
+    E = ellipsoid.get(ell)
+    k = 3 if kind == "position" else 6
+    P, D = (Position, PositionDelta) if kind == "position" else (PosVel, PosVelDelta)
+    case = {"fn": "delta empty_from", "kind": kind, "ellipsoid": ell, "shape": shape}
+    ctx.case(case, nontrivial=True)
+    ctx.count(f"delta-empty_from:{kind}")
+    ref = P(as_shape((np.ones((2, k)) * 7.0e6).tolist(), shape), "trs", ellipsoid=E)
+    d = D(as_shape(np.ones((2, k)).tolist(), shape), "trs", ref_pos=ref)
+    try:
+        e = type(d).empty_from(d)
+    except Exception as ex:  # noqa: BLE001
+        gviolate(ctx, f"raises:delta-empty_from:{type(ex).__name__}", f"{type(d).__name__}.empty_from(d) (reference position on {ell}, shape {shape}) raised {type(ex).__name__}: {ex}", case)
+        return
+    r = getattr(e, "ref_pos", None)
+    ok = (type(e) is type(d) and e.shape == d.shape and np.isnan(np.asarray(e, dtype=float)).all() and e.system == d.system
+          and type(r) is type(ref) and getattr(r, "shape", None) == ref.shape and getattr(r, "system", None) == ref.system)
+    if not ok:
+        gviolate(ctx, "delta-empty_from:result", f"{type(d).__name__}.empty_from(d) returned a {type(e).__name__} of shape {getattr(e, 'shape', None)} with ref_pos {type(r).__name__}", case)
+    elif getattr(r, "ellipsoid", None) is not E:
+        gviolate(ctx, f"ellipsoid-lost:delta-empty_from:{kind}", f"the reference position of {type(d).__name__}.empty_from(d) is on {getattr(getattr(r, 'ellipsoid', None), 'name', '?')}, d.ref_pos is on {ell}", case)
+
+
 def as_shape_obj(obj, shape):
     """(n, k) position object → the requested shape (first row / first row as (1, k))"""
     if shape == "1d":
@@ -1008,6 +1062,8 @@ def replay(payload):
         run_sequence(ctx, rng, c["class"], c["ellipsoid"], ops, kinds, forced=c.get("variants"), nrows=c.get("rows"), first_row=(c.get("ndim") == 1 and c.get("rows", 1) > 1))
     elif fn == "arithmetic" and c.get("ellipsoid") in ellipsoid._ELLIPSOIDS:
         arith_one(ctx, rng, c["family"], c["form"], c["ellipsoid"], c["ref_ellipsoid"], c["ref_ellipsoid2"], c["shape"], c["same_system"])
+    elif fn == "delta empty_from" and c.get("ellipsoid") in ellipsoid._ELLIPSOIDS:
+        delta_empty_from_one(ctx, c["kind"], c["ellipsoid"], c["shape"])
     elif fn in ("ellipsoid parameters", "ellipsoid table"):
         check_table(ctx)
     elif fn == "trs2llh/llh2trs" and c.get("ellipsoid") in ellipsoid._ELLIPSOIDS:
